@@ -6,7 +6,7 @@ rows = []
 for d in sorted(glob.glob(os.path.join(ROOT, "seeded", "*", "meta.json"))):
     m = json.load(open(d))
     rows.append(m)
-missed = [m for m in rows if "initially" in m["detection"]]
+missed = [m for m in rows if "initially" in m["detection"] or "missed first" in m["detection"].lower()]
 pre = [m for m in rows if "before the first evaluation" in m["detection"]]
 out = ["# Seeded property-breaking changes", "",
        f"{len(rows)} changes, each produced by a fresh sub-agent that saw only the property text and a scratch worktree, each",
@@ -16,7 +16,7 @@ out = ["# Seeded property-breaking changes", "",
        "All are reported by the current quick tier of their property (at the base commit given in meta.json where the patch no longer applies to HEAD).", "",
        "| seed | first evaluation | detecting classes / what was changed |", "|---|---|---|"]
 for m in rows:
-    first = "MISSED" if "initially MISSED" in m["detection"] or "initially a HARNESS" in m["detection"] else ("not measured" if "before the first evaluation" in m["detection"] else "caught")
+    first = "MISSED" if "initially MISSED" in m["detection"] or "initially a HARNESS" in m["detection"] or "missed first" in m["detection"].lower() else ("not measured" if "before the first evaluation" in m["detection"] else "caught")
     out.append(f"| {m['seed']} | {first} | {m['detection'].replace('|', '/')} |")
 open(os.path.join(ROOT, "seeded", "README.md"), "w").write("\n".join(out) + "\n")
 print(len(rows), len(missed), len(pre))
